@@ -170,7 +170,8 @@ def run(ctx):
     faults = {"none": dict(), "input-electrical": dict(input=electrical_signal(np.ones(100))), "input-ndarray": dict(input=np.ones(100)),
               "r-str": dict(r="0.5"), "r-list": dict(r=[0.5]), "T-str": dict(T="300"), "Rload-str": dict(R_load="50"), "include-noise-int": dict(include_noise=3),
               "r-zero": dict(r=0), "r-negative": dict(r=-0.1), "r-above-1": dict(r=1.5), "T-negative": dict(T=-1.0), "Rload-negative": dict(R_load=-50.0),
-              "include-noise-unknown": dict(include_noise="thermal+shot"), "include-noise-empty": dict(include_noise="")}
+              "include-noise-unknown": dict(include_noise="thermal+shot"), "include-noise-empty": dict(include_noise=""),
+              "T-zero": dict(T=0.0), "T-zero-int": dict(T=0), "r-one": dict(r=1), "idark-zero": dict(i_dark=0), "selection-mixed-case": dict(include_noise="Thermal-Shot")}
     for name, kw in faults.items():
         args = dict(input=good, BW=5e9)
         args.update(kw)
